@@ -94,7 +94,7 @@ func init() {
 				return 0
 			}
 			if tier == core.Thorough {
-				return 100000
+				return 60000
 			}
 			return 3000
 		},
